@@ -191,12 +191,18 @@ def mon_conn(ops, impl):
                     reset_max = kv[10:]
         # C17: a handle that reports an I/O error reports the kind the transport raised
         # (a read error is met by the next poll; a write error only if something is written: take it from the poll's result)
-        if w[0] == "cn_rderr" and len(w) > 1:
+        # (an error injected after the connection future has completed is never met by anybody)
+        if w[0] == "cn_rderr" and len(w) > 1 and not result_seen:
             io_raised.append(w[1] if w[1] in ("BrokenPipe", "ConnectionReset", "UnexpectedEof", "TimedOut") else "Other")
         if w[0] == "cn_poll" and _f(a, "r=").startswith("err:io:Some("):
             io_raised.append(_f(a, "r=")[12:-1])
         if w[0].startswith("cn_") and w[0] in STREAM_HANDLE_OPS and _f(a, "r=").startswith("err:io:Some("):
             out.append((i, f"mon_cn ioerr {','.join(io_raised) if io_raised else '-'} {_f(a, 'r=')[12:-1]}"))
+        # C17: a handle that reports a GOAWAY of the peer reports the code of the frame that refused its stream
+        if w[0] in STREAM_HANDLE_OPS and len(w) > 1 and w[1].isdigit() and int(w[1]) < len(slots):
+            rr = _f(a, "r=").split(":")
+            if len(rr) >= 4 and rr[0] == "err" and rr[1] == "goaway" and rr[3] == "remote" and rr[2].isdigit():
+                out.append((i, f"mon_cn goawaycode {slots[int(w[1])]} {rr[2]}"))
         if w[0].startswith("cn_") and gone and w[0] in AFTER_END_OPS:
             # C07: the connection object has been dropped; nothing may stay pending
             # (with the state the stream was in when the connection object was dropped)
@@ -311,7 +317,7 @@ def mon_conn(ops, impl):
             if rx != "-":
                 for f in rx.split(";"):
                     out.append((i, "mon_cn rx " + f))
-        if w[0] in ("cn_req", "cn_reqc", "cn_accept", "cn_pollpushed") and r.startswith("ok:"):
+        if w[0] in ("cn_req", "cn_reqc", "cn_accept", "cn_pollpushed", "cn_pushk") and r.startswith("ok:"):
             p = r.split(":")
             slots.append(int(p[2]))
             if w[0] == "cn_accept":
@@ -469,6 +475,7 @@ PROPS = {
             ("H2V.Props.C20", "H2V.Props.C20.pong_lost_if_wake_before_cas"),
             ("H2V.Props.C20", "H2V.Props.C20.lock_order_acyclic"),
             ("H2V.Props.C20", "H2V.Props.C20.no_transport_progress_under_streams_lock"),
+            ("H2V.Props.C20", "H2V.Props.C20.user_extensions_dropped_before_the_lock"),
         ],
         "parallel": 3,
         "profiles": [
